@@ -2,5 +2,6 @@
 pub mod bft;
 pub mod cli;
 pub mod kit;
+pub mod pipes;
 pub mod prim;
 pub mod props;
